@@ -194,7 +194,8 @@ CHECKS["C14"] = {"pkg": "netsim", "test": "TestC14", "level": "exploration",
             "process holding a port, and 2-12 operations: CNI ADD (the fake plugin or the n-th iptables call may fail; a failed ADD is "
             "followed by kubelet's DEL), CNI DEL (the n-th iptables call may fail; retried), daemon restart (sockets die, a new instance "
             "runs the real start-up synchronisation on the same API objects and nat table), the GC's clean callback for dead containers, "
-            "a pod becoming terminating (deletion timestamp set, sandbox alive until its DEL). "
+            "a pod becoming terminating (deletion timestamp set, sandbox alive until its DEL), the re-creation of a pod's sandbox (DEL of the old "
+            "container and ADD of a new one for the SAME pod object, annotations included). "
             "After every operation: every live pod's recorded host ports are bound by galaxy and pairwise distinct, no other port of the "
             "universe and no random port handed out earlier is bound, the nat table holds exactly the mappings of the live pods (pod IP = "
             "what the plugin reported), foreign chains byte-identical, the saved port file exists iff the container is live with ports, the "
@@ -209,7 +210,8 @@ CHECKS["C15"] = {"pkg": "netsim", "test": "TestC15", "level": "exploration",
             "with pod/namespace/combined selectors, ipBlocks with excepts, ports, all policyTypes combinations; B derived from A by pod "
             "delete/relabel/re-address/loss of the address (re-created, not networked yet)/re-creation under the same name on the other side (local <-> remote)/add and policy delete/rewrite/add), optionally the A->B difference as a generated permutation of "
             "informer events through the real handlers, and prior kernel state (foreign chains/sets, stale GLX sets, stale GLX policy "
-            "chains, a stale pod chain still referencing a stale policy chain). Oracle on the strict fakes: no rejected batch, non-GLX "
+            "chains, a stale pod chain still referencing a stale policy chain, hook chains that exist without the jumps from the built-in chains). Every jump "
+            "from INPUT/OUTPUT/FORWARD into galaxy's hook chains that a sync from empty tables installs must be present after the full sync. Oracle on the strict fakes: no rejected batch, non-GLX "
             "chains/rules/sets unchanged after every call, full sync of B == full sync of B on empty tables (canonical form), second full "
             "sync changes nothing. The four findings this check had recorded (K1-K4) are repaired; their signatures are still computed but nothing is excused any more. "
             "Non-trivial = B differs from A in >=1 policy and >=1 pod and stale GLX garbage had to be removed.",
@@ -232,6 +234,7 @@ CHECKS["C16"] = {"pkg": "netsim", "test": "TestC16", "level": "exploration",
             "full sync removes) and everything else from the current state. evaluations = clusters; coverage.extra.flows = flows judged. "
             "Non-trivial = >=1 isolated local pod and both ACCEPT and DROP verdicts occur.",
     "assumptions": E3_ASSUME + ["new-connection packets on the FORWARD hook (pod-to-pod and pod-to-external traffic through this node); conntrack RELATED,ESTABLISHED never matches a first packet",
+                                "a missing from/to or ports list and a present but empty one mean the same; the generated objects carry either form (objects built in Go keep the difference, a JSON round trip does not)",
                                 "numeric ports only (named ports are documented as unsupported)"],
     "floors": {"isolated_local_pod": 0.3, "agrees_with_kubernetes_semantics": 0.2}}
 
